@@ -11,7 +11,9 @@ PROPERTY = "C06"
 BOUNDS = {"all": "definitions: every sequence of 1..3 bit-fields (quick; thorough adds random 4..6) over storage types "
                  "{uint8,16,32,64,int8,16,32,uint24,char,enum:uint16,enum:int8,flag:uint8} and a width alphabet incl. unit-exhausting and "
                  "straddling widths, interleaved with non-bit members and dynamic members; x {<,>} x {packed,aligned} x {interpreted,"
-                 "compiled}; all unit contents symbolic; written values: every value < 2^width"}
+                 "compiled}; all unit contents symbolic; written values: every value < 2^width; plus the real BitBuffer driven directly with "
+                 "SYMBOLIC widths w1..wk (k <= 3 quick / 4 thorough, sum <= unit bits) on 8/16/32/64-bit units, both byte orders, read and "
+                 "write: every width sequence of that length in one query family"}
 
 STORAGE = [("u8", G.U8), ("u16", G.U16), ("u32", G.U32), ("u64", G.U64), ("i8", G.I8), ("i16", G.I16), ("i32", G.I32),
            ("u24", G.U24), ("char", G.CHAR), ("E", G.E16), ("ES", G.E8S), ("F", G.F8)]
@@ -185,3 +187,87 @@ def cases(tier, seed):
             yield {"label": label, "T": T, "cfg": cfg, "nbytes": H.input_len(T, cfg)}
             if constructible(T) and not cfg["compiled"]:
                 yield {"label": label + "#write", "T": T, "cfg": cfg, "make": "make_write"}
+
+
+# ------------------------------------------------------------------------------------------ unit level, symbolic widths
+def make_unit(case):
+    """The real BitBuffer driven directly with SYMBOLIC widths: one query family covers every width sequence of length k."""
+    from dissect.cstruct import cstruct
+    from dissect.cstruct.bitbuffer import BitBuffer
+    nbytes, endian, k, mode, signed = case["nbytes"], case["endian"], case["k"], case["mode"], case.get("signed", False)
+    nb = 8 * nbytes
+    big = endian == ">"
+
+    def run(ctx):
+        cs = cstruct(endian=endian)
+        t = cs.resolve(R.int_name(nbytes, signed))
+        ws = [ctx.int(f"w{i}", 1, nb) for i in range(k)]
+        total = 0
+        for w in ws:
+            total = total + w
+        ctx.constrain(total <= nb)
+        if mode == "read":
+            data = ctx.bytes("u", nbytes + 1)
+            s = ctx.stream(data)
+            bb = BitBuffer(s, endian)
+            U = R.be_int(data, 0, nbytes) if big else R.le_int(data, 0, nbytes)
+            used = 0
+            for i, w in enumerate(ws):
+                try:
+                    v = bb.read(t, w)
+                except Exception as e:  # noqa: BLE001
+                    ctx.check(f"field {i}: widths that fit the unit are readable", False, H.classify(e))
+                    return
+                shift = (nb - used - w) if big else used
+                exp = (U >> shift) & ((1 << w) - 1)
+                ctx.check(f"field {i}: value = bits [{'msb' if big else 'lsb'} first] of the unit", v == exp)
+                ctx.check(f"field {i}: 0 <= value < 2^width", R.And(v >= 0, v < (1 << w)))
+                used = used + w
+            ctx.check("exactly one storage unit consumed", s.tell() == nbytes)
+            return
+        vals = []
+        for i, w in enumerate(ws):
+            v = ctx.int(f"v{i}", 0, (1 << nb) - 1)
+            ctx.constrain(v < (1 << w))
+            vals.append(v)
+        s = ctx.stream(b"")
+        bb = BitBuffer(s, endian)
+        used = 0
+        U = 0
+        for w, v in zip(ws, vals):
+            try:
+                bb.write(t, v, w)
+            except Exception as e:  # noqa: BLE001
+                ctx.check("values that fit are writable", False, H.classify(e))
+                return
+            shift = (nb - used - w) if big else used
+            U = U | (v << shift)
+            used = used + w
+        try:
+            bb.flush()
+        except Exception as e:  # noqa: BLE001
+            ctx.check("flushing a unit of fitting values works", False, H.classify(e))
+            return
+        o = s.getvalue()
+        ctx.observe("unit", o)
+        ctx.check("exactly one storage unit written", len(o) == nbytes, f"{len(o)}")
+        if len(o) == nbytes:
+            got = R.be_int(o, 0, nbytes) if big else R.le_int(o, 0, nbytes)
+            ctx.check("unit = composition of the fields, unused bits zero", got == U)
+    return run
+
+
+_struct_cases = cases
+
+
+def cases(tier, seed):  # noqa: F811
+    for nbytes in (1, 2, 4, 8):
+        for endian in "<>":
+            for k in (1, 2, 3) if tier == "quick" else (1, 2, 3, 4):
+                for mode in ("read", "write"):
+                    for signed in (False, True):
+                        if signed and (mode == "read" or k != 2):
+                            continue
+                        yield {"label": f"unit {nbytes}B {endian} k={k} {mode}{' signed' if signed else ''}", "nbytes": nbytes, "endian": endian,
+                               "k": k, "mode": mode, "signed": signed, "make": "make_unit", "width": 96 if nbytes <= 4 else 192}
+    yield from _struct_cases(tier, seed)
